@@ -23,7 +23,7 @@ func init() {
 	Registry["C02"] = Spec{
 		Fn:          c02,
 		Level:       "exploration",
-		Rule:        "generated (Options, Query, client revision, server revision, compression) executions of Client.Do against the synchronous scripted server: ids/bodies empty/long/non-UTF8, 0..n connection-level and query-level settings with flags (in a third of the cases one key appears on both levels or twice on one), parameters, secret, initial user, quota keys, span contexts, external data with/without table name, input columns drawn from the whole catalogue, one representative revision per interval of the feature table (and both neighbours of every threshold) on either side, {Disabled, None, LZ4, LZ4HC, ZSTD}. Follow-up inserts on the same connection grow by one row of high-entropy data (100..4000 rows, and 140000..160000 rows = frames above 1 MiB). A bare follow-up query on the same connection must carry none of the first query's per-query fields. The recorded client byte stream is parsed by the reference codec at the negotiated revision and compared field by field with the expectation computed from the caller's inputs; nothing may be left over. Non-trivial = at least one of {settings, parameters, external data, input block, compression}; distinct = (field-presence vector, negotiated revision, compression, input type)",
+		Rule:        "generated (Options, Query, client revision, server revision, compression) executions of Client.Do against the synchronous scripted server: ids/bodies empty/long/non-UTF8, OpenTelemetry instrumentation on in a third of the cases, 0..n connection-level and query-level settings with flags (in a third of the cases one key appears on both levels or twice on one), parameters, secret, initial user, quota keys, span contexts, external data with/without table name, input columns drawn from the whole catalogue, one representative revision per interval of the feature table (and both neighbours of every threshold) on either side, {Disabled, None, LZ4, LZ4HC, ZSTD}. Follow-up inserts on the same connection grow by one row of high-entropy data (100..4000 rows, and 140000..160000 rows = frames above 1 MiB). A bare follow-up query on the same connection must carry none of the first query's per-query fields. The recorded client byte stream is parsed by the reference codec at the negotiated revision and compared field by field with the expectation computed from the caller's inputs; nothing may be left over. Non-trivial = at least one of {settings, parameters, external data, input block, compression}; distinct = (field-presence vector, negotiated revision, compression, input type)",
 		Assumptions: []string{"reference stream parser harness/internal/simnet + ref; 'supported window': settings need revision >= 54429 (library limitation recorded under C17), parameters >= 54459 must otherwise be refused before anything is written"},
 		MinDistinct: 200,
 	}
@@ -91,6 +91,9 @@ func c02One(r *core.Run, ci int64, rng *rand.Rand, reps []int) {
 	opt := ch.Options{
 		User: c17Str(rng), Password: c17Str(rng), Database: c17Str(rng), QuotaKey: c17Str(rng), ClientName: []string{"", "verif", "x y"}[rng.Intn(3)],
 		Compression: comp, CompressionLevel: ch.CompressionLevel(rng.Intn(14)), ProtocolVersion: crev, ReadTimeout: 5 * time.Second,
+		// instrumentation must not change a byte of what is sent (no tracer provider is installed:
+		// spans are no-ops that carry the caller's span context)
+		OpenTelemetryInstrumentation: rng.Intn(3) == 0,
 	}
 	if neg >= ref.RevSettingsAsStr {
 		opt.Settings = genChSettings(rng, "conn")
@@ -151,7 +154,7 @@ func c02One(r *core.Run, ci int64, rng *rand.Rand, reps []int) {
 			ctx = trace.ContextWithSpanContext(ctx, libSpan(tr))
 		}
 	}
-	desc := map[string]any{"client_rev": crev, "server_rev": srev, "compression": comp.String(), "settings": len(opt.Settings) + len(q.Settings), "params": len(q.Parameters), "external": len(ext), "inputs": inputDesc(inp), "rows": rows, "body_len": len(q.Body), "trace": tr != nil}
+	desc := map[string]any{"client_rev": crev, "server_rev": srev, "compression": comp.String(), "settings": len(opt.Settings) + len(q.Settings), "params": len(q.Parameters), "external": len(ext), "inputs": inputDesc(inp), "rows": rows, "body_len": len(q.Body), "trace": tr != nil, "otel": opt.OpenTelemetryInstrumentation}
 	r.CaseLog(fmt.Sprintf("%d %v", ci, desc))
 	r.Eval()
 
